@@ -423,7 +423,12 @@ def render_tree(doc, opts=None):
             pe.append(E("LongDescription", text=p["long"]))
         ps.append(pe)
     cs = E("ContainerSet")
-    for c in doc["containers"]:
+    conts = list(doc["containers"])
+    if o.get("container_order") == "reversed":      # XTCE puts no order on the definitions inside a set
+        conts.reverse()
+    elif o.get("container_order") == "rotated":
+        conts = conts[len(conts) // 2:] + conts[:len(conts) // 2]
+    for c in conts:
         cs.append(render_container(E, c, o))
     tm.append(ts)
     tm.append(ps)
